@@ -8,7 +8,7 @@ package props
 //     its primes at the first attempt and the whole of prepare.go / paillier.GenerateKeyPair runs in about a
 //     second.  Nothing in the verdict depends on this: if the library read differently the run would merely be
 //     slow and end with the context deadline (recorded, not judged),
-//   - optionally (thorough, VERIF_C19_FRESH=1) one run of keygen.GeneratePreParams with crypto/rand,
+//   - one run of keygen.GeneratePreParamsWithContext with crypto/rand (thorough tier; VERIF_C19_FRESH=0/1 overrides),
 //   - toy sizes: crypto.GenerateNTildei on safe primes the real generator returned and
 //     paillier.GenerateKeyPair for small modulus lengths (validated by TLC when they fit its integers).
 
